@@ -61,7 +61,7 @@ def result_variants(facts, f, enum_self, target_enum):
 
 def rule_value_roundtrip(ck, facts):
     R = "C20.value"
-    ck.rule(R, "for every Value variant V: to_ffi_value returns Err, or Ok(FfiValue::W(..)) with to_value(W) = V; scalar payloads pass unchanged; every payload field of V is used")
+    ck.rule(R, "for every Value variant V: to_ffi_value returns Err, or Ok(FfiValue::W(..)) with to_value(W) = V; scalar payloads pass unchanged; every payload field of V is used; an aggregate of nested Values can return Err (nested failures are propagated, not dropped)")
     lang = facts.crate(roles.LANG)
     enc = [f for f in lang.fns if f.short.endswith("Value::to_ffi_value") or (f.short.endswith("::to_ffi_value") and "ffi_serde" in f.path and f.kind == "assoc")]
     dec = [f for f in lang.fns if f.short.endswith("FfiValue::to_value") or (f.short.endswith("::to_value") and "ffi_serde" in f.path and f.kind == "assoc")]
@@ -111,6 +111,21 @@ def rule_value_roundtrip(ck, facts):
                     x = x[1]
                 if x[0] in ("bin", "un", "cast"):
                     ck.bad(R, "scalar|%s|%d" % (v, i), "to_ffi_value transforms payload %d of Value::%s (%s) instead of passing it through" % (i, v, show(pe)), enc[0].where())
+    # nested values: an aggregate whose payload holds Values must be able to fail (a nested value that cannot cross the
+    # boundary makes the whole value non-transferable; swallowing the nested Err shortens the aggregate silently)
+    for vv in vadt["variants"]:
+        v = vv["n"]
+        nested = any("interpreter::Value" in fld[1] for fld in vv["f"])
+        if not nested:
+            continue
+        res = e.get(v, set())
+        if not any(r[0] == "ok" for r in res):
+            continue
+        key = "nested-failure|%s" % v
+        if any(r[0] == "err" for r in res):
+            ck.ok(R, key, {"variant": v, "nested": "Err is propagated"})
+        else:
+            ck.bad(R, key, "to_ffi_value encodes Value::%s, whose payload holds nested Values, but has no path that returns Err from that arm: a nested value that cannot cross the boundary (closure, store, external function ...) is dropped and the shortened aggregate is sent instead of an error" % v, enc[0].where())
     # decoder side: scalar payloads unchanged
     for w, res in d.items():
         for r in res:
@@ -186,6 +201,7 @@ def rule_type_serde(ck, facts, R="C20.type-serde", ENUM=None, self_suffix="types
     # deserializer arms: Field::X constructs Type::X
     vis = [g for g in lang.fns if module_mark in g.path and g.short.endswith("::visit_enum")]
     ck.require(R, len(vis) >= 1, "anchor|visit_enum", "visit_enum of %s's deserializer not found" % label)
+    n_dec = 0
     for g in vis:
         fcov = cover.coverage(facts, g, fields[0]["p"])
         if fcov is None:
@@ -194,6 +210,7 @@ def rule_type_serde(ck, facts, R="C20.type-serde", ENUM=None, self_suffix="types
             tb = fcov.arm_target(v)
             if tb is None:
                 continue
+            n_dec += 1
             region = reachable(g, tb, stop=[fcov.primary.block])
             built = set()
             for b in region:
@@ -204,6 +221,61 @@ def rule_type_serde(ck, facts, R="C20.type-serde", ENUM=None, self_suffix="types
                 ck.ok(R, "decode|%s" % v, {"identifier": v, "constructs": v})
             else:
                 ck.bad(R, "decode|%s" % v, "deserializer arm for identifier %s constructs %s::%s" % (v, label, sorted(built)), g.where())
+    ck.floor(R, "decoder_arms_checked_%s" % label.lower(), n_dec, max(1, floor - 3))
+    # field order of struct-like payloads: positional formats (bincode) decode the helper struct's fields in declaration
+    # order, so that order must be the order of the serializer's serialize_field calls
+    from ..facts import callee_full
+    helpers = {}
+    for g in vis:
+        fcov = cover.coverage(facts, g, fields[0]["p"])
+        if fcov is None:
+            continue
+        for v in fcov.names:
+            tb = fcov.arm_target(v)
+            if tb is None:
+                continue
+            for b in reachable(g, tb, stop=[fcov.primary.block]):
+                t = g.term(b)
+                if t[KIND] == "call" and (callee(t) or "").split("::")[-1] in ("newtype_variant", "struct_variant", "tuple_variant"):
+                    full = callee_full(t) or ""
+                    m = full.rsplit("newtype_variant::<", 1)
+                    if len(m) == 2:
+                        ty = m[1].rstrip(">")
+                        for pth, a in lang.adts.items():
+                            if pth.split("::")[-1] == ty.split("::")[-1] and module_mark in pth and pth.split("::")[-1].endswith("Fields") and len(a["variants"]) == 1:
+                                helpers[v] = [x[0] for x in a["variants"][0]["f"]]
+    for v in sorted(helpers):
+        tb = cov.arm_target(v)
+        if tb is None:
+            continue
+        sx = SymEx(f, payload_place=cov.primary.place, max_paths=64, facts=facts)
+        try:
+            paths = sx.run(tb)
+        except PathLimit:
+            paths = sx.paths
+        order = None
+        for p in paths:
+            if p.end != "return":
+                continue
+            names = []
+            for ev in p.events:
+                if ev[0] == "call" and ev[1].split("::")[-1] == "serialize_field":
+                    for a in ev[2]:
+                        x = a
+                        while isinstance(x, tuple) and x and x[0] in ("ref", "deref"):
+                            x = x[1]
+                        if isinstance(x, tuple) and x and x[0] == "k" and isinstance(x[1], str):
+                            names.append(x[1])
+                            break
+            if len(names) > len(order or []):
+                order = names
+        key = "field-order|%s" % v
+        if order is None:
+            continue
+        if order == helpers[v]:
+            ck.ok(R, key, {"variant": v, "fields": order})
+        else:
+            ck.bad(R, key, "%s::%s is serialised with its fields in the order %s but the deserializer's helper struct declares %s: a positional format (bincode) decodes them swapped without any error (e.g. a function type comes back with argument and result exchanged)" % (label, v, order, helpers[v]), f.where())
     # refused variants = those whose arm returns Err
     refused = [v for v in cov.names if v not in table]
     ck.note("%s variants refused by the serializer: %s" % (label, sorted(refused)))
